@@ -729,3 +729,56 @@ def fan_split_tet(n_splits, border_last=True):
         cells = [tuple(perm[v] for v in c) for c in cells]
     cells = [c if tet_volume6(*(pts[v] for v in c)) > 0 else (c[0], c[1], c[3], c[2]) for c in cells]
     return pts, cells
+
+
+# ---------------------------------------------------------------------------------- interleaved disjoint unions
+def interleaved_union(parts):
+    """Disjoint union of several complexes whose vertices AND elements are numbered round-robin across the parts
+    (vertex j of every part comes before vertex j+1 of any part, same for the elements), so that the connected
+    components are interleaved in index order instead of stored block after block.
+    parts: list of (points, elements). Returns (points, elements, component label of every element)."""
+    vmap, order = {}, []
+    for j in range(max(len(p) for p, _ in parts)):
+        for i, (p, _) in enumerate(parts):
+            if j < len(p):
+                vmap[(i, j)] = len(order)
+                order.append(p[j])
+    elems, labels = [], []
+    for j in range(max(len(e) for _, e in parts)):
+        for i, (_, e) in enumerate(parts):
+            if j < len(e):
+                elems.append(tuple(vmap[(i, v)] for v in e[j]))
+                labels.append(i)
+    return order, elems, labels
+
+
+def _shift(points, dx):
+    return [(p[0] + dx, p[1], p[2]) for p in points]
+
+
+def tet_chain(k):
+    """k tetrahedra (i, i+1, i+2, i+3) on the moment curve: consecutive cells share a triangle."""
+    return [tuple(p) for p in moment_curve(k + 3)], [(i, i + 1, i + 2, i + 3) for i in range(k)]
+
+
+def interleaved_specimens(kind):
+    """Named multi-component specimens with interleaved numbering. kind 'sf' -> surfaces (strips of the integer grid),
+    'vol' -> chains of tetrahedra, 'pl' -> paths. Each: (tag, points, elements)."""
+    out = []
+    if kind == "sf":
+        menus = {"2strips:tri": [grid(2, 3, "tri"), grid(2, 3, "tri2")],
+                 "3strips:tri:unequal": [grid(2, 2, "tri"), grid(2, 4, "tri"), grid(2, 3, "tri2")],
+                 "strip+quads": [grid(2, 3, "tri"), grid(2, 3, "quad")],
+                 "3strips:mixed": [grid(2, 3, "quad"), grid(3, 2, "tri"), grid(2, 2, "quad")]}
+    elif kind == "vol":
+        menus = {"2chains:3+3": [tet_chain(3), tet_chain(3)],
+                 "3chains:3+3+2": [tet_chain(3), tet_chain(3), tet_chain(2)],
+                 "3chains:1+2+4": [tet_chain(1), tet_chain(2), tet_chain(4)]}
+    else:
+        path = lambda k: ([(i, 0, 0) for i in range(k)], [(i, i + 1) for i in range(k - 1)])
+        menus = {"2paths:3+3": [path(3), path(3)], "3paths:2+4+3": [path(2), path(4), path(3)]}
+    for tag, parts in menus.items():
+        parts = [(_shift(p, 20 * i), e) for i, (p, e) in enumerate(parts)]
+        pts, el, _ = interleaved_union(parts)
+        out.append(("interleaved:" + tag, pts, el))
+    return out
